@@ -32,6 +32,8 @@ type c05Scenario struct {
 	// optional misbehaviour of the (first) client process: exit0 exit1 closeout garbage unknown, once k answers were emitted
 	ClientFault   string `json:"client_fault,omitempty"`
 	ClientFaultAt int    `json:"client_fault_at,omitempty"`
+	// SyncStdin: the client's input pipe has io.Pipe's semantics (a write completes only when the client reads)
+	SyncStdin bool `json:"sync_stdin,omitempty"`
 }
 
 func c05Configs(name string) []configCase {
@@ -269,12 +271,16 @@ func c05Body(x *gate.Exec, sc c05Scenario) (*c05Obs, func()) {
 	w.answer = func(kind string, j int, req *conformancev1.ClientCompatRequest) *conformancev1.ClientCompatResponse {
 		return psPassResponse(req)
 	}
-	if sc.ClientFault != "" {
+	if sc.ClientFault != "" || sc.SyncStdin {
 		w.clientScript = func(k int, kind string) fakeScript {
 			if k == 0 {
-				return fakeScript{Fault: sc.ClientFault, FaultAt: sc.ClientFaultAt}
+				f := sc.ClientFault
+				if f == "" {
+					f = "none"
+				}
+				return fakeScript{Fault: f, FaultAt: sc.ClientFaultAt, SyncStdin: sc.SyncStdin}
 			}
-			return fakeScript{Fault: "none"}
+			return fakeScript{Fault: "none", SyncStdin: sc.SyncStdin}
 		}
 	}
 	remove := w.install()
@@ -524,6 +530,25 @@ func c05Scenarios(thorough bool) []c05Scenario {
 								}
 								out = append(out, c05Scenario{Cfg: cfg, Suites: su, Mode: mode, MaxServers: ms, FailStart: -1, ClientFault: cf, ClientFaultAt: k})
 							}
+						}
+					}
+				}
+				// the client's input is a synchronous pipe: a sender can be parked inside its write (holding the
+				// send lock) while the other batch, the output reader and the client's fault make progress
+				if mode == "both" && su == "one" && (cfg == "A2" || thorough) {
+					faults := []string{"", "closeout", "exit0"}
+					if thorough {
+						faults = append(faults, "exit1", "unknown")
+					}
+					for _, cf := range faults {
+						for k := 0; k <= 1; k++ {
+							if cf == "" && k > 0 {
+								continue
+							}
+							if !thorough && ((cf == "closeout" && k != 0) || (cf == "exit0" && k != 1)) {
+								continue
+							}
+							out = append(out, c05Scenario{Cfg: cfg, Suites: su, Mode: mode, MaxServers: 2, FailStart: -1, ClientFault: cf, ClientFaultAt: k, SyncStdin: true})
 						}
 					}
 				}
